@@ -274,6 +274,53 @@ func ruleEFF2(w *World) []Ob {
 	}
 	sites := directSites(p)
 	n := 0
+	// a private helper of the mkdirer: an unexported plain function all of whose call sites (and no other use of its
+	// value) lie in mkdirer methods or in other such helpers — it runs behind the same gates as its callers
+	helperMemo := map[*ssa.Function]bool{}
+	var ownedHelper func(f *ssa.Function, depth int) bool
+	ownedHelper = func(f *ssa.Function, depth int) bool {
+		if v, ok := helperMemo[f]; ok {
+			return v
+		}
+		helperMemo[f] = false
+		if depth > 3 || f.Parent() != nil || f.Signature.Recv() != nil || (f.Object() != nil && f.Object().Exported()) {
+			return false
+		}
+		callers := p.Callers(f)
+		if len(callers) == 0 {
+			return false
+		}
+		for _, ci := range callers {
+			if _, isCall := ci.(*ssa.Call); !isCall {
+				return false
+			}
+			c := outermost(ci.Parent())
+			if owners[recvTypeName(c)] {
+				continue
+			}
+			if !ownedHelper(c, depth+1) {
+				return false
+			}
+		}
+		// its value is not taken anywhere (passed as a callback, stored)
+		for _, g := range p.ModFuncs {
+			used := false
+			allInstrs(g, func(in ssa.Instruction) {
+				for _, op := range in.Operands(nil) {
+					if op != nil && *op == ssa.Value(f) {
+						if ci, isCall := in.(ssa.CallInstruction); !isCall || ci.Common().Value != ssa.Value(f) {
+							used = true
+						}
+					}
+				}
+			})
+			if used {
+				return false
+			}
+		}
+		helperMemo[f] = true
+		return true
+	}
 	for _, fn := range libFuncs(p) {
 		num := numbered{}
 		for _, s := range sites[fn] {
@@ -285,6 +332,8 @@ func ruleEFF2(w *World) []Ob {
 			rt := recvTypeName(fn)
 			if owners[rt] && s.eff == EffFSMutate {
 				l.ok(p.FuncID(fn), construct, p.InstrPos(s.instr), "filesystem-mutating call inside mkdirer type "+rt, false, "site")
+			} else if s.eff == EffFSMutate && ownedHelper(fn, 0) {
+				l.ok(p.FuncID(fn), construct, p.InstrPos(s.instr), "filesystem-mutating call inside a private helper that only mkdirer methods call", false, "site")
 			} else {
 				l.bad(p.FuncID(fn), construct, p.InstrPos(s.instr), "a "+s.eff.String()+" call outside the mkdirer types ("+strings.Join(sortedKeys(owners), ", ")+"): creation must stay behind the mkdirer's existence test, validation and dry-run gates", "site")
 			}
@@ -294,6 +343,34 @@ func ruleEFF2(w *World) []Ob {
 		l.undecided("-", "filesystem-mutating sites", "-", "none found in the library: effect table lost the mkdirer", "site")
 	}
 	return l.list
+}
+
+// blockReachOnTrue: the blocks reachable from the point where the comparison b has come out true: the true successor of
+// the If it decides, or — when it feeds an `||` phi — the successor taken when that phi is true.
+func blockReachOnTrue(b *ssa.BinOp) map[*ssa.BasicBlock]bool {
+	out := map[*ssa.BasicBlock]bool{}
+	var start []*ssa.BasicBlock
+	var visit func(v ssa.Value, d int)
+	visit = func(v ssa.Value, d int) {
+		if v.Referrers() == nil || d > 3 {
+			return
+		}
+		for _, r := range *v.Referrers() {
+			switch x := r.(type) {
+			case *ssa.If:
+				start = append(start, x.Block().Succs[0])
+			case *ssa.Phi:
+				visit(x, d+1)
+			}
+		}
+	}
+	visit(b, 0)
+	for _, s := range start {
+		for blk := range blockReach(s, map[*ssa.BasicBlock]bool{}) {
+			out[blk] = true
+		}
+	}
+	return out
 }
 
 // optionField: the config field stored by the closure that the given With* option returns.
@@ -311,6 +388,27 @@ func optionField(p *Prog, option string) string {
 					}
 				}
 			}
+		})
+		if f != "" {
+			return f
+		}
+		// through a setter of the config: func (c *config) setX(v T) { …; c.x = v }
+		allInstrs(fn, func(in ssa.Instruction) {
+			c, ok := in.(*ssa.Call)
+			if !ok || c.Common().StaticCallee() == nil || !p.InModule(c.Common().StaticCallee()) || recvTypeName(c.Common().StaticCallee()) != "config" {
+				return
+			}
+			allInstrs(c.Common().StaticCallee(), func(in2 ssa.Instruction) {
+				if st, ok := in2.(*ssa.Store); ok {
+					if fa, ok := st.Addr.(*ssa.FieldAddr); ok {
+						if tn, fld, _ := fieldOf(fa); tn == "config" {
+							if _, fromParam := resolve(st.Val).(*ssa.Parameter); fromParam {
+								f = fld
+							}
+						}
+					}
+				}
+			})
 		})
 		if f != "" {
 			return f
@@ -907,6 +1005,53 @@ func ruleEFF4(w *World) []Ob {
 			l.ok("(*gtree.Node).validatePath", "rejecting atom: name contains '/'", pp.Pos(vp.Pos()), "a non-nil error is returned on the true side of strings.Contains*(n.name, …\"/\"…)", true, "validate")
 		} else {
 			l.bad("(*gtree.Node).validatePath", "rejecting atom: name contains '/'", pp.Pos(vp.Pos()), "no return of a non-nil error guarded by a test that the node name contains '/'", "validate")
+		}
+		// third atom: "." and ".." are no names of their own — path.Join resolves them away, so the joined path is valid
+		// (a/.. = ".") although it is not the path of this node: the node is silently not created, or created elsewhere
+		dotNames := map[string]bool{}
+		allInstrs(vp, func(in ssa.Instruction) {
+			r, ok := in.(*ssa.Return)
+			if !ok || !nc.nonNil(rr(r)[0], r, 0) {
+				return
+			}
+			for _, g := range guardsOf(r.Block()) {
+				cond, pol := flattenCond(g.Cond, g.Pol)
+				if b, isB := cond.(*ssa.BinOp); isB && ((b.Op == token.EQL && pol) || (b.Op == token.NEQ && !pol)) {
+					for _, pair := range [][2]ssa.Value{{b.X, b.Y}, {b.Y, b.X}} {
+						if _, f, isF := fieldOfLoad(pair[0]); isF && f == "name" {
+							if sv, isS := constString(pair[1]); isS {
+								dotNames[sv] = true
+							}
+						}
+					}
+				}
+			}
+		})
+		// the same decided by a phi of the two comparisons (n.name == "." || n.name == "..")
+		allInstrs(vp, func(in ssa.Instruction) {
+			b, ok := in.(*ssa.BinOp)
+			if !ok || b.Op != token.EQL {
+				return
+			}
+			for _, pair := range [][2]ssa.Value{{b.X, b.Y}, {b.Y, b.X}} {
+				if _, f, isF := fieldOfLoad(pair[0]); isF && f == "name" {
+					if sv, isS := constString(pair[1]); isS && (sv == "." || sv == "..") {
+						// does a true outcome lead to a non-nil error return?  (either directly or through the || phi)
+						for blk := range blockReachOnTrue(b) {
+							for _, i2 := range blk.Instrs {
+								if r, isR := i2.(*ssa.Return); isR && nc.nonNil(rr(r)[0], r, 0) {
+									dotNames[sv] = true
+								}
+							}
+						}
+					}
+				}
+			}
+		})
+		if dotNames["."] && dotNames[".."] {
+			l.ok("(*gtree.Node).validatePath", "rejecting atom: name is \".\" or \"..\"", pp.Pos(vp.Pos()), "a non-nil error is returned when the node name is \".\" or \"..\"", true, "validate")
+		} else {
+			l.bad("(*gtree.Node).validatePath", "rejecting atom: name is \".\" or \"..\"", pp.Pos(vp.Pos()), "no return of a non-nil error for the names \".\" and \"..\": path.Join resolves them away, so the joined path passes fs.ValidPath although it is not this node's path — `a/..` is accepted and nothing (or the wrong directory) is made for it", "validate")
 		}
 		if validOK {
 			l.ok("(*gtree.Node).validatePath", "rejecting atom: !fs.ValidPath(path)", pp.Pos(vp.Pos()), "a non-nil error is returned on the false side of fs.ValidPath(n.path())", true, "validate")
